@@ -1,12 +1,535 @@
-/-! Model for property C20 (core-only: no Mathlib import, so the driver links). -/
+import OnetVerif.Model.Util
+import OnetVerif.Generated
+/-! Model for property C20: address parsing (`network/address.go`), listen-address selection
+(`network/tcp.go` getListenAddress, `network/struct.go` GlobalBind) and the websocket host:port
+derivation (`websocket_client.go` getWSHostPort).  Core-only.
+
+Strings are byte lists (`List Nat`, every element < 256 on the inputs the driver feeds).  The Go
+standard-library functions the code calls are transcribed from the Go sources of the toolchain
+that builds the harness (go1.23.5; the same text in go1.26): `strings.Split`, `net.SplitHostPort`,
+`strconv.Atoi`, `strconv.ParseUint(_, 10, 16)`, `net.ParseIP` (via `netip.ParseAddr`),
+`strings.ToLower`, `net.JoinHostPort`, `strconv.FormatUint`.  A `none` result of an accessor
+stands for a Go run-time panic (index out of range). -/
 namespace C20
 
+abbrev Str := List Nat
+
+/-! ### byte classes -/
+def isDigit (c : Nat) : Bool := 48 ≤ c && c ≤ 57
+def isLower (c : Nat) : Bool := 97 ≤ c && c ≤ 122
+def isAlnum (c : Nat) : Bool := isLower c || isDigit c
+def isHex (c : Nat) : Bool := isDigit c || (97 ≤ c && c ≤ 102) || (65 ≤ c && c ≤ 70)
+
+/-! ### `strings.Split(s, "://")` (address.go:36 `typeAddressSep`) -/
+
+/-- `"://"` -/
+def sep : Str := [58, 47, 47]
+
+/-- `strings.Index(s, "://")` followed by the two slicings of `genSplit`: what is before and what
+is after the first (leftmost) occurrence of the separator. -/
+def cut : Str → Option (Str × Str)
+  | [] => none
+  | c :: rest =>
+    if c = 58 ∧ rest.take 2 = [47, 47] then some ([], rest.drop 2)
+    else match cut rest with
+      | none => none
+      | some (b, a) => some (c :: b, a)
+
+/-- `strings.Split(s, "://")`: cut at every leftmost non-overlapping separator (`genSplit` with
+`n = -1`).  The fuel is the string length; every cut consumes three bytes. -/
+def splitAll : Nat → Str → List Str
+  | 0, s => [s]
+  | n + 1, s =>
+    match cut s with
+    | none => [s]
+    | some (b, a) => b :: splitAll n a
+
+def split (s : Str) : List Str := splitAll s.length s
+
+/-! ### connection types (address.go:24-50) -/
+def tcp : Str := [116, 99, 112]
+def tls : Str := [116, 108, 115]
+def localT : Str := [108, 111, 99, 97, 108]
+/-- `InvalidConnType = "wrong"` -/
+def wrong : Str := [119, 114, 111, 110, 103]
+
+/-- `connType(t string) ConnType` (address.go:40-50) -/
+def connTypeOf (t : Str) : Str := if t = tcp ∨ t = tls ∨ t = localT then t else wrong
+
+/-! ### `net.SplitHostPort` (net/ipsock.go:165-218) -/
+
+/-- `bytealg.IndexByteString` -/
+def indexOf (c : Nat) : Str → Option Nat
+  | [] => none
+  | x :: r => if x = c then some 0 else (indexOf c r).map (· + 1)
+
+/-- `bytealg.LastIndexByteString` -/
+def lastIndexOf (c : Nat) : Str → Option Nat
+  | [] => none
+  | x :: r =>
+    match lastIndexOf c r with
+    | some i => some (i + 1)
+    | none => if x = c then some 0 else none
+
+/-- `net.SplitHostPort`; `none` = any of its errors (missing port, too many colons, missing or
+unexpected bracket). -/
+def splitHostPort (hp : Str) : Option (Str × Str) :=
+  match lastIndexOf 58 hp with
+  | none => none                                   -- missing port in address
+  | some i =>
+    if hp.head? = some 91 then                     -- hostport[0] == '['
+      match indexOf 93 hp with
+      | none => none                               -- missing ']' in address
+      | some e =>
+        if e + 1 = hp.length then none             -- missing port
+        else if e + 1 = i then
+          if (hp.drop 1).contains 91 then none     -- unexpected '[' (j = 1)
+          else if (hp.drop (e + 1)).contains 93 then none   -- unexpected ']' (k = end+1)
+          else some ((hp.take e).drop 1, hp.drop (i + 1))
+        else none                                  -- too many colons / missing port
+    else
+      if (hp.take i).contains 58 then none         -- too many colons
+      else if hp.contains 91 then none             -- unexpected '[' (j = 0)
+      else if hp.contains 93 then none             -- unexpected ']' (k = 0)
+      else some (hp.take i, hp.drop (i + 1))
+
+/-- `net.JoinHostPort` (net/ipsock.go:236-243) -/
+def joinHostPort (h p : Str) : Str :=
+  if h.contains 58 then 91 :: h ++ 93 :: 58 :: p else h ++ 58 :: p
+
+/-! ### `strconv.Atoi`, `strconv.ParseUint(s, 10, 16)`, `strconv.FormatUint(_, 10)` -/
+
+/-- value of a string of decimal digits, `none` on any other byte (the digit loops of
+`strconv.Atoi` / `ParseUint`) -/
+def digitsVal : Str → Nat → Option Nat
+  | [], acc => some acc
+  | c :: r, acc => if isDigit c then digitsVal r (acc * 10 + (c - 48)) else none
+
+/-- `strconv.Atoi` on a 64-bit platform: `none` = syntax or range error. -/
+def atoi (s : Str) : Option Int :=
+  match s with
+  | [] => none
+  | c :: r =>
+    let neg := c = 45
+    let ds := if c = 45 ∨ c = 43 then r else s
+    if ds = [] then none
+    else match digitsVal ds 0 with
+      | none => none
+      | some n =>
+        if neg then (if n > 2 ^ 63 then none else some (-(n : Int)))
+        else (if n ≥ 2 ^ 63 then none else some (n : Int))
+
+/-- `strconv.ParseUint(s, 10, 16)`: no sign, digits only, value below 2^16. -/
+def parseUint16 (s : Str) : Option Nat :=
+  if s = [] then none
+  else match digitsVal s 0 with
+    | none => none
+    | some n => if n ≤ 65535 then some n else none
+
+/-- `strconv.FormatUint(n, 10)` as bytes -/
+def fmtNat (n : Nat) : Str := (Nat.toDigits 10 n).map Char.toNat
+
+/-! ### `net.ParseIP` (net/ip.go:496-509 → `netip.ParseAddr`, net/netip/netip.go:115-344)
+Only nil / non-nil matters to address.go, so the model returns a `Bool`. -/
+
+/-- `parseIPv4Fields` (netip.go:155-193): `first` = at index 0, `prevDot` = `s[i-1] == '.'`. -/
+def v4loop : Str → (val pos digLen : Nat) → (first prevDot : Bool) → Bool
+  | [], _, pos, _, _, _ => pos ≥ 3                          -- "IPv4 address too short"
+  | c :: rest, val, pos, digLen, first, prevDot =>
+    if isDigit c then
+      if digLen = 1 ∧ val = 0 then false                    -- octet with leading zero
+      else
+        let val' := val * 10 + (c - 48)
+        if val' > 255 then false
+        else v4loop rest val' pos (digLen + 1) false false
+    else if c = 46 then
+      if first || rest.isEmpty || prevDot then false        -- field must have at least one digit
+      else if pos = 3 then false                            -- too long
+      else v4loop rest 0 (pos + 1) 0 false true
+    else false                                              -- unexpected character
+
+def parseIPv4 (s : Str) : Bool := v4loop s 0 0 0 true false
+
+/-- the loop of `parseIPv6` (netip.go:236-343).  `rem` = groups still free = `(16 - i) / 2`,
+`ell` = `ellipsis >= 0`.  The result folds in the checks after the loop ("trailing garbage",
+"address string too short", "the :: must expand to at least one field of zeros"). -/
+def v6loop : (rem : Nat) → Str → (ell : Bool) → Bool
+  | 0, s, ell => s.isEmpty && !ell
+  | rem + 1, s, ell =>
+    let hex := s.takeWhile isHex
+    let rest := s.dropWhile isHex
+    if hex.length > 4 then false                 -- each group must have 4 or less digits
+    else if hex.length = 0 then false            -- at least one digit
+    else match rest with
+      | [] => if rem = 0 then !ell else ell      -- group saved, end of string
+      | c :: rest' =>
+        if c = 46 then                           -- trailing IPv4
+          if (ell || rem + 1 = 2) && decide (rem + 1 ≥ 2) then
+            if parseIPv4 s then (if rem + 1 = 2 then !ell else ell) else false
+          else false
+        else if c ≠ 58 then false                -- unexpected character, want colon
+        else match rest' with
+          | [] => false                          -- colon must be followed by more characters
+          | d :: rest'' =>
+            if d = 58 then
+              if ell then false                  -- multiple ::
+              else if rest''.isEmpty then decide (rem ≠ 0)   -- `::` at the end
+              else v6loop rem rest'' true
+            else v6loop rem (d :: rest'') ell
+
+def parseIPv6 (s : Str) : Bool :=
+  if s.contains 37 then false                    -- any zone (or empty zone): ParseIP gives nil
+  else if s.take 2 = [58, 58] then
+    (if s.drop 2 = [] then true else v6loop 8 (s.drop 2) true)
+  else v6loop 8 s false
+
+/-- `net.ParseIP(s) != nil` -/
+def parseIP (s : Str) : Bool :=
+  match s.find? (fun c => c = 46 || c = 58 || c = 37) with
+  | some c => if c = 46 then parseIPv4 s else if c = 58 then parseIPv6 s else false
+  | none => false
+
+/-! ### `strings.ToLower` (strings.Map(unicode.ToLower, s)) over UTF-8
+Exact in every byte for ASCII, for invalid UTF-8 (each offending byte becomes U+FFFD, three
+bytes) and for the 25 runes whose lower case has another UTF-8 length (two of them become ASCII:
+U+212A KELVIN SIGN → k, U+0130 → i).  Every other non-ASCII rune is copied unchanged: its lower
+case is a non-ASCII rune of the same length, which `validHostname` cannot tell from the rune
+itself (it only looks at the byte length and at ASCII bytes).  The harness re-checks the table
+against `unicode.ToLower` for every rune (op `lower`). -/
+
+def isCont (c : Nat) : Bool := 128 ≤ c && c ≤ 191
+
+/-- the runes whose lower case has another UTF-8 length (Unicode tables of go1.23 … go1.26) -/
+def lenChange : List (Str × Str) := [
+  ([196, 176], [105]),                    -- U+0130 -> U+0069
+  ([200, 186], [226, 177, 165]),          -- U+023A -> U+2C65
+  ([200, 190], [226, 177, 166]),          -- U+023E -> U+2C66
+  ([225, 186, 158], [195, 159]),          -- U+1E9E -> U+00DF
+  ([226, 132, 166], [207, 137]),          -- U+2126 -> U+03C9
+  ([226, 132, 170], [107]),               -- U+212A -> U+006B
+  ([226, 132, 171], [195, 165]),          -- U+212B -> U+00E5
+  ([226, 177, 162], [201, 171]),          -- U+2C62 -> U+026B
+  ([226, 177, 164], [201, 189]),          -- U+2C64 -> U+027D
+  ([226, 177, 173], [201, 145]),          -- U+2C6D -> U+0251
+  ([226, 177, 174], [201, 177]),          -- U+2C6E -> U+0271
+  ([226, 177, 175], [201, 144]),          -- U+2C6F -> U+0250
+  ([226, 177, 176], [201, 146]),          -- U+2C70 -> U+0252
+  ([226, 177, 190], [200, 191]),          -- U+2C7E -> U+023F
+  ([226, 177, 191], [201, 128]),          -- U+2C7F -> U+0240
+  ([234, 158, 141], [201, 165]),          -- U+A78D -> U+0265
+  ([234, 158, 170], [201, 166]),          -- U+A7AA -> U+0266
+  ([234, 158, 171], [201, 156]),          -- U+A7AB -> U+025C
+  ([234, 158, 172], [201, 161]),          -- U+A7AC -> U+0261
+  ([234, 158, 173], [201, 172]),          -- U+A7AD -> U+026C
+  ([234, 158, 174], [201, 170]),          -- U+A7AE -> U+026A
+  ([234, 158, 176], [202, 158]),          -- U+A7B0 -> U+029E
+  ([234, 158, 177], [202, 135]),          -- U+A7B1 -> U+0287
+  ([234, 158, 178], [202, 157]),          -- U+A7B2 -> U+029D
+  ([234, 159, 133], [202, 130])]          -- U+A7C5 -> U+0282
+
+/-- bytes written for one valid multi-byte rune -/
+def lowerMulti (r : Str) : Str :=
+  match lenChange.find? (fun e => e.1 == r) with
+  | some e => e.2
+  | none => r
+
+/-- one rune of `for _, c := range s`: (bytes written by `Map(unicode.ToLower)`, width read) -/
+def lowerStep : Str → Str × Nat
+  | [] => ([], 1)
+  | b0 :: r =>
+    if b0 < 128 then ([if 65 ≤ b0 ∧ b0 ≤ 90 then b0 + 32 else b0], 1)
+    else
+      let bad : Str × Nat := ([239, 191, 189], 1)
+      if 194 ≤ b0 ∧ b0 ≤ 223 then
+        match r with
+        | b1 :: _ => if isCont b1 then (lowerMulti [b0, b1], 2) else bad
+        | _ => bad
+      else if 224 ≤ b0 ∧ b0 ≤ 239 then
+        match r with
+        | b1 :: b2 :: _ =>
+          let lo := if b0 = 224 then 160 else 128
+          let hi := if b0 = 237 then 159 else 191
+          if lo ≤ b1 ∧ b1 ≤ hi ∧ isCont b2 then (lowerMulti [b0, b1, b2], 3) else bad
+        | _ => bad
+      else if 240 ≤ b0 ∧ b0 ≤ 244 then
+        match r with
+        | b1 :: b2 :: b3 :: _ =>
+          let lo := if b0 = 240 then 144 else 128
+          let hi := if b0 = 244 then 143 else 191
+          if lo ≤ b1 ∧ b1 ≤ hi ∧ isCont b2 ∧ isCont b3 then ([b0, b1, b2, b3], 4) else bad
+        | _ => bad
+      else bad
+
+def lowerRunes : Nat → Str → Str
+  | 0, _ => []
+  | _ + 1, [] => []
+  | n + 1, s => (lowerStep s).1 ++ lowerRunes n (s.drop (lowerStep s).2)
+
+/-- `strings.ToLower` -/
+def goLower (s : Str) : Str := lowerRunes s.length s
+
+/-! ### `validHostname` (address.go:122-175) -/
+
+/-- `strings.Split(s, ".")` -/
+def splitDot : Str → List Str
+  | [] => [[]]
+  | c :: r =>
+    if c = 46 then [] :: splitDot r
+    else match splitDot r with
+      | p :: ps => (c :: p) :: ps
+      | [] => [[c]]
+
+/-- `[a-z0-9]|[a-z0-9][a-z0-9\-]*[a-z0-9]` -/
+def labelOk (l : Str) : Bool :=
+  match l with
+  | [] => false
+  | c :: r => isAlnum c && r.all (fun x => isAlnum x || x = 45) && isAlnum ((c :: r).getLastD c)
+
+/-- `[a-z]+` -/
+def tldOk (l : Str) : Bool := !l.isEmpty && l.all isLower
+
+/-- hand-written recogniser replacing
+`regexp.MatchString("^(([a-z0-9]|[a-z0-9][a-z0-9\\-]*[a-z0-9])\\.)*([a-z]+)$", s)`:
+no label can contain a dot, so a match is exactly a split at the dots whose last part is the
+alphabetic label and whose other parts are labels. -/
+def matchRe (s : Str) : Bool :=
+  let ls := splitDot s
+  ls.dropLast.all labelOk && tldOk (ls.getLastD [])
+
+/-- `validHostname` as repaired (the length limit is 253 without the trailing dot, as documented) -/
+def validHostname (h : Str) : Bool :=
+  if h = [] then false
+  else
+    let s := goLower h
+    let s := if s.getLast? = some 46 then s.dropLast else s
+    if s.length > 253 then false
+    else if (splitDot s).any (fun l => l.length < 1 || l.length > 63) then false
+    else
+      let m := matchRe s
+      if !m && !s.contains 46 then true else m
+
+/-! ### `Address` methods (address.go:51-268) -/
+
+/-- `Address.Valid` (address.go:177-209) -/
+def valid (a : Str) : Bool :=
+  match split a with
+  | [t, na] =>
+    if connTypeOf t = wrong then false
+    else match splitHostPort na with
+      | none => false
+      | some (ip, port) =>
+        match atoi port with
+        | none => false
+        | some p =>
+          if p < 0 ∨ p > 65535 then false
+          else if ip = [] then true
+          else if !parseIP ip then validHostname ip
+          else true
+  | _ => false
+
+/-- `Address.ConnType` (address.go:52-61); `none` = index panic on `vals[0]` -/
+def connType (a : Str) : Option Str :=
+  if !valid a then some wrong else (split a)[0]?.map connTypeOf
+
+/-- `Address.NetworkAddress` (address.go:72-81); `none` = index panic on `vals[1]` -/
+def networkAddress (a : Str) : Option Str :=
+  if !valid a then some [] else (split a)[1]?
+
+/-- `Address.Host` (address.go:216-229) -/
+def host (a : Str) : Option Str :=
+  (networkAddress a).map fun na =>
+    if na = [] then []
+    else match splitHostPort na with
+      | none => []
+      | some (h, _) => h
+
+/-- `Address.Port` (address.go:231-246) -/
+def port (a : Str) : Option Str :=
+  (networkAddress a).map fun na =>
+    if na = [] then []
+    else match splitHostPort na with
+      | none => []
+      | some (_, p) => p
+
+/-- `Address.IsHostname` (address.go:63-70) -/
+def isHostname (a : Str) : Option Bool :=
+  (host a).map fun h => validHostname h && !parseIP h
+
+/-- `NewAddress` (address.go:263-268) -/
+def newAddress (t na : Str) : Str := t ++ sep ++ na
+
+/-! ### listen address (struct.go:284-292, tcp.go:471-506) and websocket address
+(websocket_client.go:582-632) -/
+
+inductive R where
+  | ok (s : Str)
+  | err
+  | panic
+  deriving DecidableEq, Repr
+
+/-- `GlobalBind` (struct.go:284-292) -/
+def globalBind (address : Str) : R :=
+  match splitHostPort address with
+  | none => .err
+  | some (_, p) => .ok (58 :: p)
+
+/-- `getListenAddress` (tcp.go:471-506), as repaired (the combination of a bare listen host with
+the server's port is returned only if it is a splittable host:port). -/
+def getListenAddress (a l : Str) : R :=
+  match networkAddress a with
+  | none => .panic
+  | some na =>
+    if l = [] then globalBind na
+    else match splitHostPort na with
+      | none => .err
+      | some (_, p) =>
+        -- `len(strings.Split(listenAddr, ":")) == 1` ⇔ no colon in the (non-empty) listenAddr
+        if !l.contains 58 && p ≠ [] then
+          match splitHostPort (l ++ 58 :: p) with
+          | none => .err
+          | some _ => .ok (l ++ 58 :: p)
+        else match splitHostPort l with
+          | none => .err
+          | some (hl, pl) => if hl ≠ [] && pl ≠ [] then .ok l else .err
+
+/-- what `url.Parse(si.URL)` returned, as far as getWSHostPort looks at it (net/url is not
+modelled: the harness supplies these parts, the theorems hold for arbitrary ones) -/
+structure UrlParts where
+  parsed   : Bool      -- err == nil
+  abs      : Bool      -- url.IsAbs()
+  scheme   : Str       -- url.Scheme
+  port     : Str       -- url.Port()
+  hostname : Str       -- url.Hostname()
+
+def http : Str := [104, 116, 116, 112]
+def https : Str := [104, 116, 116, 112, 115]
+
+/-- `schemeToPort` (websocket_client.go:570-580) -/
+def schemeToPort (s : Str) : Option Nat :=
+  if s = http then some 80 else if s = https then some 443 else none
+
+/-- `getWSHostPort` (websocket_client.go:582-632) as repaired: `url = none` is `si.URL == ""`;
+the port is a 16-bit value, an address port of 65535 is an error instead of wrapping to 0. -/
+def wsHostPort (a : Str) (url : Option UrlParts) (global : Bool) : R :=
+  let finish (hostname : Str) (port : Nat) : R :=
+    .ok (joinHostPort (if global then [48, 46, 48, 46, 48, 46, 48] else hostname) (fmtNat port))
+  match url with
+  | some u =>
+    if !u.parsed then .err
+    else if !u.abs then .err
+    else match schemeToPort u.scheme with
+      | none => .err
+      | some pp =>
+        if u.port = [] then finish u.hostname pp
+        else match parseUint16 u.port with
+          | none => .err
+          | some n => finish u.hostname (n % 65536)      -- uint16(portRaw)
+  | none =>
+    match port a, host a with
+    | some p, some h =>
+      match parseUint16 p with
+      | none => .err
+      | some n =>
+        if n + 1 ≥ 65536 then .err                       -- the repair
+        else finish h ((n + 1) % 65536)                  -- uint16(portRaw + 1)
+    | _, _ => .panic
+
+/-- the code before the repair (kept for the negation witness in Props) -/
+def wsHostPortOld (a : Str) (global : Bool) : R :=
+  match port a, host a with
+  | some p, some h =>
+    match parseUint16 p with
+    | none => .err
+    | some n =>
+      .ok (joinHostPort (if global then [48, 46, 48, 46, 48, 46, 48] else h) (fmtNat ((n + 1) % 65536)))
+  | _, _ => .panic
+
+/-! ### line-protocol driver -/
 namespace Drv
-/-- line-protocol driver state for C20 -/
+
 abbrev State := Unit
 def init : State := ()
-/-- one line in (tokens after the property prefix), new state and one line out -/
-def step (s : State) (_toks : List String) : State × String := (s, "bad-op")
+
+def bytesOf (s : String) : Str := s.toUTF8.toList.map UInt8.toNat
+
+/-- the constants re-extracted from /repo must be the ones this model was written for -/
+def constsOk : Bool :=
+  Generated.connTypes.map bytesOf == [tcp, tls, localT] && Generated.portBitSize == 16
+
+def b01 (b : Bool) : String := if b then "1" else "0"
+
+def showOpt (o : Option Str) : String :=
+  match o with
+  | none => "panic"
+  | some s => Util.hex s
+
+def showR : R → String
+  | .ok s => "ok " ++ Util.hex s
+  | .err => "err"
+  | .panic => "panic"
+
+def parseBool (s : String) : Option Bool :=
+  if s = "1" then some true else if s = "0" then some false else none
+
+/-- `addr <hex>` every accessor; `hostname <hex>` validHostname; `ip <hex>` ParseIP≠nil;
+`shp <hex>` SplitHostPort; `gbind <hex>`; `listen <addr> <listenAddr>`;
+`ws <addr> <global> nourl` / `ws <addr> <global> url <url> <parsed> <abs> <scheme> <port> <hostname>`
+(the last five are what `url.Parse(<url>)` returned); `lower <hex>` length and ASCII bytes of ToLower. -/
+def step (s : State) (toks : List String) : State × String :=
+  if !constsOk then (s, "bad-consts") else
+  match toks with
+  | ["addr", a] =>
+    match Util.unhex a with
+    | some a =>
+      let v := valid a
+      let ct := connType a
+      let na := networkAddress a
+      let re := match ct, na with
+        | some t, some n => Util.hex (newAddress t n)
+        | _, _ => "panic"
+      let ih := match isHostname a with | none => "panic" | some b => b01 b
+      (s, s!"valid={b01 v} type={showOpt ct} na={showOpt na} host={showOpt (host a)} port={showOpt (port a)} ishost={ih} re={re}")
+    | none => (s, "bad-op")
+  | ["hostname", h] =>
+    match Util.unhex h with
+    | some h => (s, b01 (validHostname h))
+    | none => (s, "bad-op")
+  | ["ip", h] =>
+    match Util.unhex h with
+    | some h => (s, b01 (parseIP h))
+    | none => (s, "bad-op")
+  | ["shp", h] =>
+    match Util.unhex h with
+    | some h =>
+      (s, match splitHostPort h with
+          | none => "err"
+          | some (x, y) => s!"ok {Util.hex x} {Util.hex y}")
+    | none => (s, "bad-op")
+  | ["gbind", h] =>
+    match Util.unhex h with
+    | some h => (s, showR (globalBind h))
+    | none => (s, "bad-op")
+  | ["listen", a, l] =>
+    match Util.unhex a, Util.unhex l with
+    | some a, some l => (s, showR (getListenAddress a l))
+    | _, _ => (s, "bad-op")
+  | ["ws", a, g, "nourl"] =>
+    match Util.unhex a, parseBool g with
+    | some a, some g => (s, showR (wsHostPort a none g))
+    | _, _ => (s, "bad-op")
+  | ["ws", a, g, "url", u, pd, ab, sc, po, hn] =>
+    match Util.unhex a, parseBool g, Util.unhex u, parseBool pd, parseBool ab, Util.unhex sc, Util.unhex po, Util.unhex hn with
+    | some a, some g, some _, some pd, some ab, some sc, some po, some hn =>
+      (s, showR (wsHostPort a (some { parsed := pd, abs := ab, scheme := sc, port := po, hostname := hn }) g))
+    | _, _, _, _, _, _, _, _ => (s, "bad-op")
+  | ["lower", h] =>
+    match Util.unhex h with
+    | some h =>
+      let l := goLower h
+      (s, s!"{l.length} {Util.hex (l.filter (· < 128))}")
+    | none => (s, "bad-op")
+  | _ => (s, "bad-op")
+
 end Drv
 
 end C20
